@@ -1262,24 +1262,34 @@ func (o *baseObject) iterateStringKeys() iterNextFunc {
 }
 
 type objectSymbolIter struct {
-	iter *orderedMapIter
+	m    *orderedMap
+	keys []Value
+	idx  int
 }
 
 func (i *objectSymbolIter) next() (propIterItem, iterNextFunc) {
-	entry := i.iter.next()
-	if entry != nil {
-		return propIterItem{
-			name:  entry.key,
-			value: entry.value,
-		}, i.next
+	for i.idx < len(i.keys) {
+		key := i.keys[i.idx]
+		i.idx++
+		// the property may have been deleted (or deleted and re-created) since the list of keys was taken
+		if value := i.m.get(key); value != nil {
+			return propIterItem{
+				name:  key,
+				value: value,
+			}, i.next
+		}
 	}
 	return propIterItem{}, nil
 }
 
+// iterateSymbols iterates over the symbol-keyed properties that exist at the time of the call
+// (like [[OwnPropertyKeys]], the list of keys is taken once), skipping those that get deleted
+// before they are reached.
 func (o *baseObject) iterateSymbols() iterNextFunc {
-	if o.symValues != nil {
+	if o.symValues != nil && o.symValues.size > 0 {
 		return (&objectSymbolIter{
-			iter: o.symValues.newIter(),
+			m:    o.symValues,
+			keys: o.symbols(true, nil),
 		}).next
 	}
 	return func() (propIterItem, iterNextFunc) {
@@ -1288,8 +1298,8 @@ func (o *baseObject) iterateSymbols() iterNextFunc {
 }
 
 type objectAllPropIter struct {
-	o      *Object
 	curStr iterNextFunc
+	curSym iterNextFunc
 }
 
 func (i *objectAllPropIter) next() (propIterItem, iterNextFunc) {
@@ -1298,13 +1308,13 @@ func (i *objectAllPropIter) next() (propIterItem, iterNextFunc) {
 		i.curStr = next
 		return item, i.next
 	}
-	return i.o.self.iterateSymbols()()
+	return i.curSym()
 }
 
 func (o *baseObject) iterateKeys() iterNextFunc {
 	return (&objectAllPropIter{
-		o:      o.val,
 		curStr: o.val.self.iterateStringKeys(),
+		curSym: o.val.self.iterateSymbols(),
 	}).next
 }
 
